@@ -17,6 +17,8 @@ def initM (ws : List String) : M := { s := init, u := (kvNat? ws "u").getD 0 }
 inductive Cmd where
   | one (op : Op)
   | fill (a b uri hash ts : Nat)
+  /-- quick tier's state injection: the state `set_document` leaves for the names 0..n-1 -/
+  | preload (n uri hash ts : Nat)
 
 def parseCmd (ws : List String) : Option Cmd :=
   match ws with
@@ -25,17 +27,20 @@ def parseCmd (ws : List String) : Option Cmd :=
     | "set" => some (.one (.set (kvN rest "n") (kvN rest "u") (kvN rest "h") (kvN rest "ts")))
     | "remove" => some (.one (.remove (kvN rest "n")))
     | "fill" => some (.fill (kvN rest "a") (kvN rest "b") (kvN rest "u") (kvN rest "h") (kvN rest "ts"))
+    | "preload" => some (.preload (kvN rest "n") (kvN rest "u") (kvN rest "h") (kvN rest "ts"))
     | _ => none
   | _ => none
 
 def cmdOps : Cmd → List Op
   | .one op => [op]
   | .fill a b u h ts => (List.range (b - a)).map (fun i => .set (a + i) u h ts)
+  | .preload n u h ts => (List.range n).map (fun i => .set i u h ts)
 
 def cmdNames : Cmd → List Nat
   | .one (.set n _ _ _) => [n]
   | .one (.remove n) => [n]
   | .fill a b _ _ _ => [a, b - 1]
+  | .preload .. => []
 
 def dedupKeep (l : List Nat) : List Nat := l.foldl (fun acc x => if acc.contains x then acc else acc ++ [x]) []
 
